@@ -19,6 +19,7 @@
 package websocket
 
 import (
+	"github.com/cnotch/ipchub/utils/simhook"
 	"io"
 	"net"
 	"net/http"
@@ -150,6 +151,7 @@ func (c *websocketTransport) Read(b []byte) (n int, err error) {
 // using SetDeadline and SetWriteDeadline on the websocket.
 func (c *websocketTransport) Write(b []byte) (n int, err error) {
 	// Serialize write to avoid concurrent write
+	simhook.BeforeLock(&c.Mutex)
 	c.Lock()
 	defer c.Unlock()
 
@@ -226,6 +228,7 @@ type websocketTextTransport struct {
 // using SetDeadline and SetWriteDeadline on the websocket.
 func (c *websocketTextTransport) Write(b []byte) (n int, err error) {
 	// Serialize write to avoid concurrent write
+	simhook.BeforeLock(&c.Mutex)
 	c.Lock()
 	defer c.Unlock()
 
